@@ -77,6 +77,24 @@ def generate(rng, i, tier):
     }
     sc = common.base_scenario(rng, n_markets=rng.choice([1, 1, 2]), market_knobs=knobs, strategies=rng.choice([1, 1, 2]), mix=mix, strat_kw=strat_kw, clients=[{"bpe": True}])
     sc["dyadic"] = dyadic and not line
+    if not dyadic and not line and rng.random() < 0.45:
+        # boundary-seeking agents: some LIMIT placements are sized at run time (from the oracle's own position calculator)
+        # to land a few tenths of a penny outside / inside the band around max_selection_exposure
+        side_rng = common.marketgen.random.Random("c01-probe|%d" % rng.getrandbits(32))
+
+        def mark(acts):
+            for a in acts:
+                if a.get("op") == "txn":
+                    mark(a["acts"])
+                elif a.get("op") == "place" and a.get("type", "LIMIT") == "LIMIT" and not a.get("tif") and side_rng.random() < 0.35:
+                    a["probe"] = side_rng.choice(["over", "over", "under"])
+
+        for m in sc["markets"]:
+            for u in m["updates"]:
+                for key in ("acts", "oacts"):
+                    for acts in (u.get(key) or {}).values():
+                        mark(acts)
+        sc["boundary_seeking"] = True
     if line:
         for m in sc["markets"]:
             lo, hi, step = m["line"]
